@@ -9,6 +9,8 @@ use serde_json::{json, Value};
 pub fn run_check(prop: &str, _args: &[String]) -> i32 {
     match prop {
         "C01" | "C02" | "C03" | "C16" | "C18" => seq_family(prop),
+        "C06" | "C07" => sched_family(prop),
+        "C04" | "C05" => crash_family(prop),
         _ => {
             eprintln!("unknown property {}", prop);
             2
@@ -127,5 +129,350 @@ fn seq_family(prop: &str) -> i32 {
         "SimIo host-file model (tied to the real backends by C19)".into(),
         "deterministic cache iteration order (verif-hooks H1) is one admissible order; thorough tier runs ascending and descending".into(),
         "block-granular data values: every 512-byte block holds a uniform tag word".into(),
+    ])
+}
+
+// =====================================================================
+// SCHED family: C06 C07 (+ concurrent parts of C02 C18)
+// =====================================================================
+use crate::lin;
+use crate::sched::{explore, SchedScenario};
+use rayon::prelude::*;
+
+pub fn sched_menu(g: &Geo) -> Vec<(&'static str, Op)> {
+    let cs = g.cs();
+    let bs = g.bs();
+    let sl = g.sl();
+    let tb = g.tb();
+    let half = (cs / 2).max(bs);
+    let mut m = vec![
+        ("wa", Op::Write { off: 0, len: half as usize, tag: 0x11 }),
+        ("wXY", Op::Write { off: cs - bs, len: (2 * bs) as usize, tag: 0x13 }),
+        ("wT", Op::Write { off: tb, len: bs as usize, tag: 0x15 }),
+        ("rT", Op::Read { off: tb, len: bs as usize }),
+        ("rX", Op::Read { off: 0, len: cs as usize }),
+        ("dX", Op::Discard { off: 0, len: cs }),
+        ("dXY", Op::Discard { off: 0, len: 2 * cs }),
+        ("flush", Op::Flush),
+        ("shrink", Op::Shrink),
+    ];
+    if half < cs {
+        m.push(("wb", Op::Write { off: half, len: (cs - half) as usize, tag: 0x12 }));
+    }
+    if sl < tb {
+        m.push(("wS", Op::Write { off: sl, len: bs as usize, tag: 0x14 }));
+    }
+    m.push(("wY", Op::Write { off: cs, len: cs as usize, tag: 0x16 }));
+    m
+}
+
+pub fn sched_setups(g: &Geo) -> Vec<(&'static str, &'static str, Vec<Op>)> {
+    let cs = g.cs();
+    let wx = Op::Write { off: 0, len: cs as usize, tag: 0x51 };
+    let wy = Op::Write { off: cs, len: cs as usize, tag: 0x52 };
+    vec![
+        ("empty", "libfmt", vec![]),
+        ("Xdirty", "libfmt", vec![wx.clone()]),
+        ("XYflushed", "libfmt", vec![wx.clone(), wy.clone(), Op::Flush]),
+        ("Xdiscarded", "libfmt", vec![wx.clone(), Op::Flush, Op::Discard { off: 0, len: cs }]),
+        ("backing", "backing", vec![]),
+        ("compressed", "compressed", vec![]),
+    ]
+}
+
+/// curated multi-operation scenarios aimed at the lock hierarchy and eviction
+pub fn sched_curated(g: &Geo) -> Vec<(&'static str, &'static str, Vec<Op>, Vec<Vec<Op>>)> {
+    let (cs, bs, sl, tb) = (g.cs(), g.bs(), g.sl(), g.tb());
+    let w = |off: u64, len: u64, tag: u32| Op::Write { off, len: len as usize, tag };
+    let r = |off: u64, len: u64| Op::Read { off, len: len as usize };
+    let mut v = vec![
+        // flush vs eviction-driven flush of a sibling slice of one new L2 cluster
+        ("flush-vs-evict-sibling", "libfmt", vec![w(tb, bs, 0x53), Op::Flush, w(0, bs, 0x51)], vec![vec![Op::Flush], vec![w(sl.min(tb - cs), bs, 0x14), r(tb, bs)]]),
+        // two first writers of one new data cluster + a reader
+        ("two-writers-one-reader", "libfmt", vec![], vec![vec![w(0, bs, 0x11)], vec![w(cs - bs, bs, 0x12)], vec![r(0, cs)]]),
+        // discard then the freed cluster is re-allocated by a concurrent writer who reads it back
+        ("discard-vs-realloc", "libfmt", vec![w(0, cs, 0x51), Op::Flush], vec![vec![Op::Discard { off: 0, len: cs }], vec![w(4 * cs, cs, 0x12), r(4 * cs, cs)]]),
+        // three tasks on three slices with a 2-slice cache
+        ("three-slices", "libfmt", vec![w(0, bs, 0x51), w(tb, bs, 0x52), Op::Flush], vec![vec![w(0, bs, 0x11)], vec![w(tb, bs, 0x12)], vec![w(2 * tb.min(g.vsize() / 2), bs, 0x13)]]),
+        // shrink vs writers
+        ("shrink-vs-writers", "libfmt", vec![w(0, cs, 0x51)], vec![vec![Op::Shrink], vec![w(cs, cs, 0x11)], vec![w(tb, bs, 0x12)]]),
+        // write dirtying metadata while a flush is in progress, then nothing else (C18)
+        ("flush-vs-write-other-slice", "libfmt", vec![w(0, cs, 0x51), w(tb, cs, 0x52), Op::Flush, w(cs, cs, 0x53)], vec![vec![Op::Flush], vec![w(tb + cs, cs, 0x11)]]),
+        ("flush-vs-discard", "libfmt", vec![w(0, cs, 0x51), w(tb, cs, 0x52), Op::Flush, w(cs, cs, 0x53)], vec![vec![Op::Flush], vec![Op::Discard { off: tb, len: cs }]]),
+        // multi-cluster write vs sub-cluster write
+        ("batch-vs-sub", "libfmt", vec![], vec![vec![w(0, 3 * cs, 0x11)], vec![w(cs, bs, 0x12)], vec![r(0, 2 * cs)]]),
+        // two flushes
+        ("two-flushes", "libfmt", vec![w(0, cs, 0x51), w(tb, bs, 0x52)], vec![vec![Op::Flush], vec![Op::Flush]]),
+        // COW of a backing cluster racing a read and another sub-write of the same cluster
+        ("cow-backing-two-writers", "backing", vec![], vec![vec![w(0, bs, 0x11)], vec![w(cs - bs, bs, 0x12)], vec![r(0, cs)]]),
+        ("cow-compressed-two-writers", "compressed", vec![], vec![vec![w(0, bs, 0x11)], vec![w(cs - bs, bs, 0x12)], vec![r(0, cs)]]),
+    ];
+    if sl >= tb {
+        v.remove(0);
+    }
+    v
+}
+
+fn sched_image(g: &Geo, kind: &str) -> ImageSet {
+    images::initial_images(g, &[kind]).remove(0)
+}
+
+pub struct SchedPlan {
+    pub scenarios: Vec<SchedScenario>,
+}
+
+pub fn sched_scenarios(g: &Geo, setups_filter: &[&str], caches: &[&str], pairs: bool) -> Vec<SchedScenario> {
+    let mut out = vec![];
+    let menu = sched_menu(g);
+    let mut img_cache: std::collections::HashMap<String, ImageSet> = Default::default();
+    let mut img = |k: &str| img_cache.entry(k.to_string()).or_insert_with(|| sched_image(g, k)).clone();
+    for cn in caches {
+        let cfg = cfg_of(g, cn);
+        if pairs {
+            for (sn, ik, setup) in sched_setups(g) {
+                if !setups_filter.contains(&sn) {
+                    continue;
+                }
+                for i in 0..menu.len() {
+                    for j in i..menu.len() {
+                        let (na, a) = &menu[i];
+                        let (nb, b) = &menu[j];
+                        let mut b = b.clone();
+                        if i == j {
+                            // same operation twice: give the second write its own tag
+                            match &mut b {
+                                Op::Write { tag, .. } => *tag += 0x20,
+                                Op::Read { .. } => continue,
+                                _ => {}
+                            }
+                        }
+                        // pairs of pure reads cannot conflict
+                        if matches!(a, Op::Read { .. }) && matches!(b, Op::Read { .. }) {
+                            continue;
+                        }
+                        out.push(SchedScenario {
+                            name: format!("{}:{}||{}", sn, na, nb),
+                            img: img(ik),
+                            cfg: cfg.clone(),
+                            cfg_name: cn.to_string(),
+                            setup: setup.clone(),
+                            tasks: vec![vec![a.clone()], vec![b]],
+                            fused: true,
+                        });
+                    }
+                }
+            }
+        }
+        for (name, ik, setup, tasks) in sched_curated(g) {
+            out.push(SchedScenario { name: name.into(), img: img(ik), cfg: cfg.clone(), cfg_name: cn.to_string(), setup, tasks, fused: true });
+        }
+    }
+    out
+}
+
+pub fn sched_family(prop: &str) -> i32 {
+    let run = Run::new(prop, "model_checking");
+    let thorough = run.thorough();
+    let g = images::G10;
+    let (bound, per_scn_execs, secs): (usize, u64, u64) = if thorough { (3, 400_000, 1200) } else { (2, 6_000, 40) };
+    let setups: Vec<&str> = if thorough {
+        vec!["empty", "Xdirty", "XYflushed", "Xdiscarded", "backing", "compressed"]
+    } else {
+        vec!["empty", "Xdirty", "XYflushed"]
+    };
+    let mut scenarios = sched_scenarios(&g, &setups, &["small", "ample"], true);
+    if thorough {
+        scenarios.extend(sched_scenarios(&images::G9, &["empty", "XYflushed"], &["small"], true));
+        scenarios.extend(sched_scenarios(&images::G12, &["empty", "Xdirty"], &["small"], true));
+    }
+    let want: Vec<&str> = match prop {
+        "C06" => vec!["C06", "C07"],
+        "C07" => vec!["C07", "C06"],
+        "C18" => vec!["C18"],
+        "C02" => vec!["C02"],
+        _ => vec![prop],
+    };
+    let deadline = deadline_in(secs);
+    let results: Vec<(String, Result<crate::sched::ExploreStats, String>, Vec<Violation>, u64)> = scenarios
+        .par_iter()
+        .map(|sc| {
+            let mut viols: Vec<Violation> = vec![];
+            let mut nontrivial = 0u64;
+            let mut last: Result<crate::sched::ExploreStats, String> = Err("not run".into());
+            // iterate the deviation bound; each round re-explores from scratch (cheap) so the
+            // first counterexample has the fewest deviations
+            let mut total = crate::sched::ExploreStats::default();
+            for b in 0..=bound {
+                let r = explore(sc, b, per_scn_execs, deadline, |sc, x| {
+                    let o = lin::judge(sc, x, &want);
+                    for v in o.violations {
+                        if viols.iter().filter(|y| y.class == v.class && y.prop == v.prop).count() < 3 {
+                            viols.push(v);
+                        }
+                    }
+                    o.fingerprint
+                });
+                match r {
+                    Ok(st) => {
+                        total.executions += st.executions;
+                        total.steps += st.steps;
+                        total.choice_points_max = total.choice_points_max.max(st.choice_points_max);
+                        total.distinct_outcomes = total.distinct_outcomes.max(st.distinct_outcomes);
+                        total.exhausted = st.exhausted;
+                        total.capped = st.capped;
+                        if !st.capped {
+                            total.bound_completed = b as i64;
+                        }
+                        nontrivial = total.distinct_outcomes;
+                        let stop = st.exhausted || st.capped;
+                        last = Ok(total.clone());
+                        if stop {
+                            break;
+                        }
+                    }
+                    Err(e) => {
+                        last = Err(e);
+                        break;
+                    }
+                }
+            }
+            (sc.describe(), last, viols, nontrivial)
+        })
+        .collect();
+    let mut execs = 0u64;
+    let mut steps = 0u64;
+    let mut scen_json = vec![];
+    let mut machinery_err = None;
+    let mut multi_outcome = 0u64;
+    let mut min_bound = i64::MAX;
+    let mut exhausted_n = 0;
+    let mut samples = vec![];
+    for (desc, st, viols, _nt) in results.iter() {
+        match st {
+            Ok(st) => {
+                execs += st.executions;
+                steps += st.steps;
+                if st.distinct_outcomes > 1 {
+                    multi_outcome += 1;
+                }
+                min_bound = min_bound.min(st.bound_completed);
+                if st.exhausted {
+                    exhausted_n += 1;
+                }
+                scen_json.push(json!({"scenario": desc, "executions": st.executions, "max_choice_points": st.choice_points_max,
+                    "deviation_bound_completed": st.bound_completed, "schedule_space_exhausted": st.exhausted, "capped": st.capped,
+                    "distinct_outcomes": st.distinct_outcomes, "nontrivial": st.distinct_outcomes > 1}));
+                if samples.len() < 8 {
+                    samples.push(desc.clone());
+                }
+            }
+            Err(e) => machinery_err = Some(format!("{}: {}", desc, e)),
+        }
+        run.add_all(viols.clone());
+    }
+    if let Some(e) = machinery_err {
+        eprintln!("machinery error: {}", e);
+        return 2;
+    }
+    let cov = json!({
+        "states": steps,
+        "transitions": steps,
+        "traces_validated_against_impl": execs,
+        "evaluations": execs,
+        "distinct_nontrivial": multi_outcome,
+        "rule": "stateless exploration of every schedule (which ready task is polled / which outstanding backend request completes) within the deviation bound, per scenario of 2-3 concurrent API calls on the real code under a deterministic executor; states/transitions = executor steps taken; distinct_nontrivial = scenarios in which different schedules produced more than one distinct outcome (results + final content)",
+        "samples": samples,
+        "scenarios_total": scenarios.len(),
+        "scenarios_exhausted": exhausted_n,
+        "min_deviation_bound_completed": if min_bound == i64::MAX { -1 } else { min_bound },
+        "deviation_bound_target": bound,
+        "exhaustive": false,
+        "scenarios": scen_json,
+    });
+    run.finish(cov, vec![
+        "a task poll is atomic (single-threaded async code; std locks never held across an await)".into(),
+        "completing a request and polling its owner are one action (fused); sound because a task observes a completion only when polled".into(),
+        "SimIo applies a request's effect atomically at completion".into(),
+    ])
+}
+
+
+// =====================================================================
+// CRASH family: C04 C05
+// =====================================================================
+pub fn crash_family(prop: &str) -> i32 {
+    let run = Run::new(prop, "fault_enumeration");
+    let thorough = run.thorough();
+    // (geometry, images, cfgs, depth, seconds)
+    let plans: Vec<SeqPlan> = if !thorough {
+        vec![
+            SeqPlan { geo: images::G9, images: vec!["libfmt"], cfgs: vec!["small"], depth: 4, secs: 12 },
+            SeqPlan { geo: images::G10, images: vec!["libfmt", "data"], cfgs: vec!["small"], depth: 4, secs: 24 },
+        ]
+    } else {
+        vec![
+            SeqPlan { geo: images::G9, images: vec!["libfmt", "data"], cfgs: vec!["small", "ample"], depth: 6, secs: 400 },
+            SeqPlan { geo: images::G10, images: vec!["libfmt", "data", "compressed", "backing"], cfgs: vec!["small", "ample"], depth: 6, secs: 600 },
+            SeqPlan { geo: images::G12, images: vec!["libfmt"], cfgs: vec!["small"], depth: 3, secs: 120 },
+        ]
+    };
+    let oracles = Oracles { c01: true, c04: prop == "C04", c05: prop == "C05", ..Default::default() };
+    let mut viol: Vec<Violation> = vec![];
+    let mut scen = vec![];
+    let (mut states, mut trans, mut windows, mut images_n, mut distinct, mut inexhaustive) = (0u64, 0u64, 0u64, 0u64, 0u64, 0u64);
+    let mut samples: Vec<String> = vec![];
+    let mut all_complete = true;
+    for plan in plans.iter() {
+        let imgs: Vec<ImageSet> = images::initial_images(&plan.geo, &plan.images);
+        let n = imgs.len() * plan.cfgs.len();
+        for img in imgs {
+            for cfgn in plan.cfgs.iter() {
+                qcow2_rs::verif::set_order_salt(0);
+                let cfg = cfg_of(&plan.geo, cfgn);
+                let alt = plan.geo.cfg_alt();
+                // reopen operations add nothing for crash states (reopen = flush + fresh caches)
+                let sc = SeqScenario::new(img.clone(), cfg, alt, cfgn, images::crash_alphabet(&plan.geo), oracles.clone());
+                let lim = BfsLimits { depth: plan.depth, max_states: 3_000_000, deadline: deadline_in((plan.secs / n as u64).max(2)) };
+                let st = bfs(&sc, &lim, &mut viol);
+                states += st.states;
+                trans += st.transitions;
+                windows += st.counters[1];
+                images_n += st.counters[2];
+                distinct += st.counters[3];
+                inexhaustive += st.counters[4];
+                if st.capped || st.depth_completed < st.depth_target {
+                    all_complete = false;
+                }
+                for s in st.samples.iter().take(2) {
+                    if samples.len() < 10 {
+                        samples.push(format!("{}: crash images of every fsync window of history [{}]", crate::hist::Scenario::name(&sc), s));
+                    }
+                }
+                let mut j = stats_json(&crate::hist::Scenario::name(&sc), &st);
+                j["windows"] = json!(st.counters[1]);
+                j["crash_images"] = json!(st.counters[2]);
+                j["distinct_images_checked"] = json!(st.counters[3]);
+                j["windows_not_enumerated_completely"] = json!(st.counters[4]);
+                scen.push(j);
+            }
+        }
+    }
+    run.add_all(viol);
+    let cov = json!({
+        "evaluations": images_n,
+        "distinct_nontrivial": distinct,
+        "rule": "for every transition of the explicit-state BFS over operation histories: the backend request log is cut at completed fsyncs; for every window touched by the transition every crash image = durable image x per-512-byte-block choice among {durable value, value after each un-synced request} is enumerated (complete product when <= 2^14 images, else all images within 3 block deviations of both extremes); distinct_nontrivial = images distinct by content (and sync point for C05) that were actually judged by the oracle",
+        "samples": samples,
+        "states": states,
+        "transitions": trans,
+        "windows": windows,
+        "windows_not_enumerated_completely": inexhaustive,
+        "exhaustive": all_complete && inexhaustive == 0,
+        "scenarios": scen,
+    });
+    run.finish(cov, vec![
+        "crash model: requests completed before an fsync was submitted are durable once it completes; everything else persists, is lost or tears independently per 512-byte block".into(),
+        "no tearing inside a 512-byte block; no reordering across a completed fsync".into(),
+        "SpecKit checker decides safety of an image (C04); the library itself opens crash images for C05".into(),
     ])
 }
